@@ -204,4 +204,13 @@ class SegwitChecker(SolutionChecker):
                     "this version witness program not yet supported",
                     errno.DISCOURAGE_UPGRADABLE_WITNESS_PROGRAM,
                 )
+            else:
+                # a witness version that is not defined yet succeeds, and leaves exactly one true
+                # item on the stack (so that it also passes CLEANSTACK): run the script OP_1
+                return (
+                    self.ScriptTools.compile("OP_1"),  # type: ignore[attr-defined]
+                    [],
+                    flags,
+                    self._make_witness_sighash_f(tx_context.tx_in_idx),
+                )
         return None
